@@ -29,19 +29,12 @@ func (m *Map[K, V]) ToJSON() ([]byte, error) {
 	index := 0
 
 	for it.Next() {
-		km, err := json.Marshal(it.Key())
+		// a single-entry map encodes the key the way encoding/json encodes map keys (always a string)
+		pair, err := json.Marshal(map[K]V{it.Key(): it.Value()})
 		if err != nil {
 			return nil, err
 		}
-		buf.Write(km)
-
-		buf.WriteRune(':')
-
-		vm, err := json.Marshal(it.Value())
-		if err != nil {
-			return nil, err
-		}
-		buf.Write(vm)
+		buf.Write(pair[1 : len(pair)-1])
 
 		if index != lastIndex {
 			buf.WriteRune(',')
